@@ -374,7 +374,7 @@ def main():
     # (the type check only where every generated tree is well typed by construction: histories and mutation pairs of the
     # other properties deliberately contain children / values of other types, which pyoak without the check accepts)
     rtc_ok = prop_id in ("C04", "C05", "C06", "C07", "C08", "C12", "C15", "C16")
-    modes = getattr(prop, "CONFIG_MODES", (0, 0, 0, 0, 1, 1, 2, 0) if rtc_ok else (0, 0, 0, 1, 0, 1, 0, 0))
+    modes = getattr(prop, "CONFIG_MODES", (0, 0, 0, 0, 1, 1, 2, 0, 3, 0) if rtc_ok else (0, 0, 0, 1, 0, 1, 0, 0, 3, 0))
     for k, c in enumerate(gen):
         c.setdefault("cfg", modes[k % len(modes)])
     results = run_shards(prop_id, cases, tier, args.seed, args.jobs) if driver_ok else []
